@@ -99,11 +99,29 @@ class Fn:
     def term(self, b):
         return self.blocks[b]['t']
 
-    def succs_of_term(self, t):
+    def succs_of_term(self, t, blk=None):
         k = t['k']
         if k == 'goto':
             return [t['t']]
         if k == 'switch':
+            x = t['x']
+            if 'k' not in x and blk is not None:
+                # `_4 = const false; switchInt(move _4)` in the same block
+                p = x.get('c') or x.get('m')
+                if p is not None and not p.get('p'):
+                    for st in reversed(blk['s']):
+                        if st['k'] == 'assign' and st['lhs']['l'] == p['l'] and not st['lhs'].get('p'):
+                            rv = st['rv']
+                            if rv['k'] == 'use' and 'k' in rv['x'] and 'int' in rv['x']['k']:
+                                x = rv['x']
+                            break
+            if 'k' in x and 'int' in x['k']:
+                # `if false {..}` (type-hint blocks of attribute macros): only the taken edge exists
+                v = x['k']['int']
+                for val, tgt in t['ts']:
+                    if val == v:
+                        return [tgt]
+                return [t['o']]
             return [x[1] for x in t['ts']] + [t['o']]
         if k in ('call', 'drop', 'assert'):
             return [t['t']] if 't' in t else []
@@ -123,7 +141,7 @@ class Fn:
                 if self.blocks[b].get('cleanup'):
                     continue
                 seen = set()
-                for s in self.succs_of_term(self.term(b)):
+                for s in self.succs_of_term(self.term(b), self.blocks[b]):
                     if s in seen:
                         continue
                     seen.add(s)
